@@ -308,7 +308,18 @@ func (s *E2EScenario) Setup(k *sim.Kernel) {
 						recv = nil
 					}
 				}
-				if recv == nil {
+				if recv == nil && call.Via == "upgrade" {
+					// Connection.Upgrade: the same exchange with the upgrade flag; what its
+					// receive function returns for the reply is judged like any reply
+					var r2 func(context.Context, interface{}) (uint64, varlink.ReadWriterContext, error)
+					r2, err = conn.Upgrade(sctx, call.Method, rawOrNil(call.Params))
+					if err == nil {
+						recv = func(ctx context.Context, out interface{}) (uint64, error) {
+							f, _, err := r2(ctx, out)
+							return f, err
+						}
+					}
+				} else if recv == nil {
 					recv, err = conn.Send(sctx, call.Method, rawOrNil(call.Params), call.Flags)
 				}
 				if ends != nil {
@@ -365,6 +376,9 @@ func (c E2ECall) frame() FrameSpec {
 	more, oneway, upgrade := c.Flags&varlink.More != 0, c.Flags&varlink.Oneway != 0, c.Flags&varlink.Upgrade != 0
 	if c.Via == "call" {
 		more, oneway, upgrade = false, false, false
+	}
+	if c.Via == "upgrade" {
+		more, oneway, upgrade = false, false, true
 	}
 	return FrameSpec{Cid: c.Cid, Text: callFrame(c.Method, c.Params, more, oneway, upgrade, nil)}
 }
@@ -1255,6 +1269,14 @@ func genC12(seed uint64, tier string) Scenario {
 		return sc
 	}
 	s := genE2E(g, "C12", func() string { return g.ParamsObject(0) }, script, 30)
+	// the last call of a connection may go through Connection.Upgrade: an error
+	// reply to it is the same error
+	for ci := range s.Clients {
+		cl := &s.Clients[ci]
+		if c := &cl.Calls[len(cl.Calls)-1]; c.Via == "send" && c.Flags == 0 && c.RetryDeadlineUs == 0 && !c.FailFirst && cl.Window == 0 && g.Pct(20) {
+			c.Via = "upgrade"
+		}
+	}
 	// a typed out-parameter whose member collides with a member of the error's parameters
 	for ci := range s.Clients {
 		for i := range s.Clients[ci].Calls {
